@@ -257,13 +257,25 @@ def build(shape, gin, lists_on='target'):
                 f'    return object.__new__(cls)\n')
       exec(compile(base, f'<{modname}>', 'exec'), mod.__dict__)  # pylint: disable=exec-used
       src = f'class {name}({name}_Base):\n{body}'
+    inherited = None
+    if shape.get('configurable_base') and api == 'configurable' and not shape.get('far_ctor'):
+      # the class defines no constructor of its own: it inherits the one of a base class that is
+      # itself decorated with @gin.configurable (a plain subclass of a configurable class)
+      base_src = src.replace(f'class {name}:', f'class {name}GinBase:')
+      exec(compile(base_src, f'<{modname}>', 'exec'), mod.__dict__)  # pylint: disable=exec-used
+      inherited = mod.__dict__[name + 'GinBase'].__dict__[
+          '__init__' if kind == 'class_init' else '__new__']
+      gin.configurable(name + 'GinBase', module=modname)(mod.__dict__[name + 'GinBase'])
+      src = f'class {name}({name}GinBase):\n  pass\n'
     exec(compile(src, f'<{modname}>', 'exec'), mod.__dict__)  # pylint: disable=exec-used
     cls = mod.__dict__[name]
-    original = cls.__dict__['__init__' if kind == 'class_init' else '__new__']
+    original = inherited or cls.__dict__['__init__' if kind == 'class_init' else '__new__']
     if isinstance(original, staticmethod):
       original = original.__func__
     # `direct` must use the class as it was *before* an in-place registration
-    if api == 'configurable':
+    if api == 'configurable' and inherited is not None:
+      plain = cls      # (direct calls are not meaningful here: the base is decorated in place)
+    elif api == 'configurable':
       src2 = src.replace(f'class {name}:', f'class {name}_plain:').replace(
           f'class {name}(', f'class {name}_plain(')
       exec(compile(src2, f'<{modname}>', 'exec'), mod.__dict__)  # pylint: disable=exec-used
